@@ -371,7 +371,7 @@ func main() {
 	}
 	switch os.Args[1] {
 	case "setup":
-		if _, err := ensureBuild([]string{"pipesim", "pipesim-race"}); err != nil {
+		if _, err := ensureBuild([]string{"pipesim", "pipesim-race", "snapsim", "snapsim-plain", "gpkgsim", "toolsim", "toolsim-race"}); err != nil {
 			die2("%v", err)
 		}
 		fmt.Println("setup ok")
@@ -430,6 +430,7 @@ func runCheck(prop, tier string) int {
 	}
 	defer rc.cleanup()
 	c := &checker{rc: rc, prop: prop, tier: tier, seed: seed, t0: t0, known: loadKnown(), knownSeen: map[string]int64{}, extraCov: map[string]interface{}{}}
+	rc.known = c.knownSigs()
 	fmt.Printf("check %s %s: VERIF_SEED=%d build=%s\n", prop, tier, seed, info.Key)
 	code := plan.run(c)
 	for _, k := range c.known {
